@@ -254,7 +254,11 @@ impl<'a> Interp<'a> {
                 mk: k,
             };
             let idx = out.len();
-            if let Some(se) = &mk.specify {
+            let spec_on = match &mk.spec_when {
+                Some(w) if mk.specify.is_some() => self.eval(w, cx)? != 0,
+                _ => true,
+            };
+            if let (Some(se), true) = (&mk.specify, spec_on) {
                 // partial result must be visible to a pre-read
                 out.push(ent.clone());
                 self.makers.insert(m, Ok(out.clone()));
